@@ -4,30 +4,83 @@ import Sftp.Prim
 
   Go source modelled
   * server.go          nextHandle (`handleCount++; strconv.Itoa`), getHandle, closeHandle (delete, then
-                       Close; EBADF if absent), the sweep at the end of Serve
+                       Close; EBADF if absent), the sweep at the end of Serve (closes every file left,
+                       does NOT delete the map entries), READ / WRITE / READDIR (`getHandle`, then the
+                       file's own ReadAt / WriteAt / Readdir whatever the file is)
   * request-server.go  nextRequest, getRequest, closeRequest (delete, then `r.close()`), packetWorker's
                        Open/Opendir cases (handle allocated BEFORE the handler is asked; on a non-HANDLE
-                       reply `rs.closeRequest(handle)`), Serve's final sweep
+                       reply `rs.closeRequest(handle)`), packetWorker's `hasHandle` case (getRequest, then
+                       `request.servesPacket(pkt)`, then `request.call`), Serve's final sweep
                        (`transferError(err)`, `delete`, `close` for every remaining request)
   * request.go         Request.close (closes lister / writer / rw / reader if set, then cancels ctx),
-                       Request.transferError
+                       Request.transferError (tells writer / rw / reader — never the ListerAt),
+                       Request.servesPacket (READ through Get/Open, WRITE through Put/Open, READDIR
+                       through List handles only)
 
   Handles are the NUMBERS before `strconv.Itoa`; that `strconv.Itoa` is injective is the one trusted fact
   (two handle strings are equal iff the numbers are).  A client naming a string that is not the decimal
   form of a number is a `use`/`close` of a number that was never issued.
 
   Every `open`/`opendir` creates an OBJECT (the *Request with its context, and the reader / writer /
-  lister the handler returned; for the os-backed server the *os.File).  An object records how many times
-  it was closed, notified of a transfer error, had its context cancelled, and was used through a handle.
-  A failed open on the request server creates a PLACEHOLDER object (`real = false`): the *Request was
-  registered, but no reader/writer/lister was ever set, so `Request.close` only cancels the context.
+  reader-writer / lister the handler returned; for the os-backed server the *os.File opened read-only /
+  write-only / read-write / as a directory).  An object has a KIND and records how many times it was
+  closed, notified of a transfer error, had its context cancelled, and was used through a handle.
+  A failed open on the request server creates a PLACEHOLDER object: the *Request was registered, but no
+  reader/writer/lister was ever set, so `Request.close` only cancels the context.
 
   All table operations run under the server's mutex, so each action is atomic.  `use` models a
-  handle-bearing request (READ, WRITE, FSTAT, FSETSTAT, READDIR) as lookup + call in one step: the
+  handle-bearing request that fits every handle (FSTAT, FSETSTAT) and `useAs h need` one that needs a
+  particular kind of handle (READ, WRITE, READDIR) as lookup (+ kind check) + call in one step: the
   property is about what a client that has seen the reply to CLOSE can observe.
+
+  After the sweep Serve has returned: no request is processed any more (`step = none`, the driver's
+  `blocked`), whether or not the sweep also emptied the table.
 -/
 namespace Sftp.Handles
 open Sftp
+
+/-- What stands behind a handle. -/
+inductive Kind where
+  /-- request server: `io.ReaderAt` of Fileread (Method "Get"); os-backed: file opened O_RDONLY. -/
+  | reader
+  /-- request server: `io.WriterAt` of Filewrite (Method "Put"); os-backed: file opened O_WRONLY. -/
+  | writer
+  /-- request server: `WriterAtReaderAt` of OpenFile (Method "Open"); os-backed: file opened O_RDWR. -/
+  | readerWriter
+  /-- request server: `ListerAt` of Filelist (Method "List"); os-backed: an opened directory. -/
+  | lister
+  /-- the *Request of a failed open / opendir: nothing to close, nothing to notify. -/
+  | placeholder
+  deriving Repr, DecidableEq
+
+def Kind.all : List Kind := [.reader, .writer, .readerWriter, .lister, .placeholder]
+
+/-- The objects that take part in a transfer (the ones `Request.transferError` looks at). -/
+def Kind.isTransfer : Kind → Bool
+  | .reader | .writer | .readerWriter => true
+  | .lister | .placeholder => false
+
+/-- What a handle-bearing request needs of its handle. -/
+inductive Need where
+  /-- SSH_FXP_READ -/
+  | read
+  /-- SSH_FXP_WRITE -/
+  | write
+  /-- SSH_FXP_READDIR -/
+  | readdir
+  deriving Repr, DecidableEq
+
+/-- `Request.servesPacket` (request.go:305-315), read off the object instead of `r.Method`
+("Get" ↔ reader, "Put" ↔ writer, "Open" ↔ readerWriter, "List" ↔ lister).  For the os-backed server:
+the requests the file itself can serve (ReadAt needs a file open for reading, WriteAt one open for
+writing, Readdir a directory).  A placeholder is only ever in the table when `closeOnFailedOpen` is
+off; it is treated like by `use` (nothing stands behind it). -/
+def fits : Need → Kind → Bool
+  | .read, .reader | .read, .readerWriter => true
+  | .write, .writer | .write, .readerWriter => true
+  | .readdir, .lister => true
+  | _, .placeholder => true
+  | _, _ => false
 
 /-- Facts of the Go source that a mutation could change. -/
 structure Cfg where
@@ -35,25 +88,62 @@ structure Cfg where
   deleteOnClose : Bool
   /-- packetWorker: `rs.closeRequest(handle)` when open / opendir did not answer with a HANDLE. -/
   closeOnFailedOpen : Bool
-  /-- the loop at the end of Serve closes (and forgets) every entry left. -/
+  /-- the loop at the end of Serve closes every entry left (`req.close()` request-server.go:217,
+      `file.Close()` server.go:424). -/
   sweepClosesAll : Bool
-  /-- request server: `req.transferError(err)` in the final sweep (the os-backed server has none). -/
+  /-- request server: `req.transferError(err)` in the final sweep (request-server.go:214; the os-backed
+      server has none). -/
   sweepNotifiesTransferError : Bool
   /-- the counter is only ever incremented (`handleCount++` is its only assignment). -/
   counterMonotone : Bool
   /-- request server: the handle is allocated before the handler is asked (`true`);
       os-backed server: `os.OpenFile` first, `nextHandle` only on success (`false`). -/
   allocBeforeOpen : Bool
+  /-- the loop at the end of Serve also removes the entries it closes
+      (`delete(rs.openRequests, handle)` request-server.go:216: `true`; server.go:422-425 has no
+      `delete(svr.openFiles, handle)`: `false`). -/
+  sweepEmptiesTable : Bool := true
+  /-- the kinds of object `Request.transferError` notifies (request.go:289 `wr.(TransferError)` → writer,
+      :293 `rw.(TransferError)` → readerWriter, :297 `rd.(TransferError)` → reader; no line for
+      `r.state.listerAt`). -/
+  notifyKinds : List Kind := [.reader, .writer, .readerWriter]
+  /-- a READ / WRITE / READDIR that does not fit the kind of its (live) handle is refused before the
+      object is called (`else if !request.servesPacket(pkt)` request-server.go:321 in front of
+      `request.call`: `true`; server.go:329-333, 349-352, 529-534 call `f.ReadAt` / `f.WriteAt` /
+      `f.Readdir` right after `getHandle`: `false`). -/
+  useKindChecked : Bool := true
   deriving Repr, DecidableEq
+
+def Cfg.notifies (cfg : Cfg) (k : Kind) : Bool := cfg.notifyKinds.contains k
 
 /-- The request server today. -/
 def Cfg.current : Cfg :=
   { deleteOnClose := true, closeOnFailedOpen := true, sweepClosesAll := true,
-    sweepNotifiesTransferError := true, counterMonotone := true, allocBeforeOpen := true }
+    sweepNotifiesTransferError := true, counterMonotone := true, allocBeforeOpen := true,
+    sweepEmptiesTable := true, notifyKinds := [.reader, .writer, .readerWriter], useKindChecked := true }
 
 /-- The os-backed server today. -/
 def Cfg.currentOs : Cfg :=
-  { Cfg.current with sweepNotifiesTransferError := false, allocBeforeOpen := false }
+  { Cfg.current with sweepNotifiesTransferError := false, allocBeforeOpen := false,
+                     sweepEmptiesTable := false, notifyKinds := [], useKindChecked := false }
+
+/-! The three new fields have no generated source yet: `Generated/AllocHandles.lean` builds its two
+`Cfg` values from the first six fields only.  `cfgOfRS` / `cfgOfOS` complete a generated value with the
+hand-written constants below (TO BE EXTRACTED, see the field comments for file:line). -/
+def Hand.rsSweepEmptiesTable : Bool := true
+def Hand.rsNotifyKinds : List Kind := [.reader, .writer, .readerWriter]
+def Hand.rsUseKindChecked : Bool := true
+def Hand.osSweepEmptiesTable : Bool := false
+def Hand.osNotifyKinds : List Kind := []
+def Hand.osUseKindChecked : Bool := false
+
+def cfgOfRS (g : Cfg) : Cfg :=
+  { g with sweepEmptiesTable := Hand.rsSweepEmptiesTable, notifyKinds := Hand.rsNotifyKinds,
+           useKindChecked := Hand.rsUseKindChecked }
+
+def cfgOfOS (g : Cfg) : Cfg :=
+  { g with sweepEmptiesTable := Hand.osSweepEmptiesTable, notifyKinds := Hand.osNotifyKinds,
+           useKindChecked := Hand.osUseKindChecked }
 
 structure Obj where
   /-- number of Close calls on the reader / writer / lister / file. -/
@@ -64,11 +154,13 @@ structure Obj where
   ctx : Nat
   /-- number of handler / file calls made through a handle. -/
   touched : Nat
-  /-- `false` for the placeholder request of a failed open. -/
-  real : Bool
+  kind : Kind
   deriving Repr, DecidableEq
 
-def Obj.new (real : Bool) : Obj := { closed := 0, terr := 0, ctx := 0, touched := 0, real := real }
+/-- `false` for the placeholder request of a failed open. -/
+def Obj.real (o : Obj) : Bool := o.kind != .placeholder
+
+def Obj.new (kind : Kind) : Obj := { closed := 0, terr := 0, ctx := 0, touched := 0, kind := kind }
 
 /-- `Request.close` / `file.Close`. -/
 def Obj.close (o : Obj) : Obj := { o with closed := o.closed + o.real.toNat, ctx := o.ctx + 1 }
@@ -76,9 +168,14 @@ def Obj.notify (o : Obj) : Obj := { o with terr := o.terr + 1 }
 def Obj.touch (o : Obj) : Obj := { o with touched := o.touched + 1 }
 
 inductive Action where
-  | openOk
+  /-- open / opendir answered with a HANDLE for an object of kind `k` (never `placeholder` in a real
+      session; the model does not depend on that). -/
+  | openOk (k : Kind)
   | openFail
+  /-- FSTAT / FSETSTAT: served through every live handle. -/
   | use (h : Nat)
+  /-- READ / WRITE / READDIR. -/
+  | useAs (h : Nat) (n : Need)
   | close (h : Nat)
   /-- end of Serve; `err` = the session ended with a non-nil error. -/
   | sweep (err : Bool)
@@ -88,6 +185,9 @@ inductive Status where
   | ok
   | ebadf
   | fail
+  /-- the handle is live but the request does not fit its kind.  Request server: a failure status and
+      the object is not called; os-backed server: the object is called and its own error is the reply. -/
+  | wrongKind
   deriving Repr, DecidableEq
 
 structure State where
@@ -105,7 +205,7 @@ structure State where
   ended : Bool
 
 def State.init : State :=
-  { count := 0, «open» := [], nobj := 0, objs := fun _ => Obj.new false, issued := [], closedH := [],
+  { count := 0, «open» := [], nobj := 0, objs := fun _ => Obj.new .placeholder, issued := [], closedH := [],
     log := [], ended := false }
 
 def upd {α} (f : Nat → α) (k : Nat) (v : α) : Nat → α := fun i => if i = k then v else f i
@@ -121,22 +221,37 @@ def closeEntry (cfg : Cfg) (s : State) (h id : Nat) : State :=
            closedH := s.closedH ++ [h] }
 
 /-- nextHandle / nextRequest: the counter is incremented, its new value is the handle, the object is registered. -/
-def opened (s : State) (real : Bool) : State :=
+def opened (s : State) (kind : Kind) : State :=
   { s with count := s.count + 1, «open» := s.open ++ [(s.count + 1, s.nobj)], nobj := s.nobj + 1,
-           objs := upd s.objs s.nobj (Obj.new real), issued := s.issued ++ [s.count + 1] }
+           objs := upd s.objs s.nobj (Obj.new kind), issued := s.issued ++ [s.count + 1] }
+
+/-- What the final sweep does to one object that is still in the table. -/
+def sweepObj (cfg : Cfg) (err : Bool) (o : Obj) : Obj :=
+  let o := if cfg.sweepNotifiesTransferError && err && cfg.notifies o.kind then o.notify else o
+  if cfg.sweepClosesAll then o.close else o
 
 /-- One action of a session that has not ended. -/
 def live (cfg : Cfg) (s : State) : Action → Option State
-  | .openOk =>
-    some { opened s true with log := s.log ++ [.ok] }
+  | .openOk k =>
+    some { opened s k with log := s.log ++ [.ok] }
   | .openFail =>
     if cfg.allocBeforeOpen then
-      let s1 := { opened s false with log := s.log ++ [.fail] }
+      let s1 := { opened s .placeholder with log := s.log ++ [.fail] }
       if cfg.closeOnFailedOpen then some (closeEntry cfg s1 (s.count + 1) s.nobj) else some s1
     else some { s with log := s.log ++ [.fail] }
   | .use h =>
     match s.open.lookup h with
     | some id => some { s with objs := upd s.objs id (s.objs id).touch, log := s.log ++ [.ok] }
+    | none => some { s with log := s.log ++ [.ebadf] }
+  | .useAs h n =>
+    match s.open.lookup h with
+    | some id =>
+      if fits n (s.objs id).kind then
+        some { s with objs := upd s.objs id (s.objs id).touch, log := s.log ++ [.ok] }
+      else if cfg.useKindChecked then
+        some { s with log := s.log ++ [.wrongKind] }
+      else
+        some { s with objs := upd s.objs id (s.objs id).touch, log := s.log ++ [.wrongKind] }
     | none => some { s with log := s.log ++ [.ebadf] }
   | .close h =>
     match s.open.lookup h with
@@ -145,13 +260,8 @@ def live (cfg : Cfg) (s : State) : Action → Option State
   | .sweep err =>
     let live := s.open.map (·.2)
     some { s with
-      objs := fun id =>
-        if id ∈ live then
-          let o := s.objs id
-          let o := if cfg.sweepNotifiesTransferError && err then o.notify else o
-          if cfg.sweepClosesAll then o.close else o
-        else s.objs id,
-      «open» := if cfg.sweepClosesAll then [] else s.open,
+      objs := fun id => if id ∈ live then sweepObj cfg err (s.objs id) else s.objs id,
+      «open» := if cfg.sweepEmptiesTable then [] else s.open,
       log := s.log ++ [.ok], ended := true }
 
 /-- After the sweep Serve has returned: nothing more happens. -/
